@@ -238,6 +238,13 @@ func stateSchemaClosed(s *Scanner, c byte) *jerr.JApiError {
 		s.foundAt(s.curIndex-1, SchemaEnd)
 		s.step = stateExpectKeyword
 		return nil
+	case CommentSign:
+		// A comment which follows the schema without a blank is a part of the
+		// schema for the schema library when a line break comes after it. At the
+		// end of the file it isn't, so it comes here.
+		s.foundAt(s.curIndex-1, SchemaEnd)
+		s.step = stateBodyEnded
+		return s.startComment()
 	default:
 		return s.japiErrorUnexpectedChar("after schema", "")
 	}
